@@ -295,9 +295,22 @@ func (r *lcRig) probe() int {
 	if r.eioSid == "" {
 		return -1
 	}
-	resp, err := http.Get(r.ts.URL + "/socket.io/?EIO=4&transport=webtransport&sid=" + r.eioSid)
+	for attempt := 0; attempt < 6; attempt++ {
+		if v := r.probeOnce(); v != 2 {
+			return v
+		}
+		time.Sleep(80 * time.Millisecond)
+	}
+	return 2
+}
+
+var lcProbeClient = &http.Client{Timeout: 5 * time.Second, Transport: &http.Transport{DisableKeepAlives: true}}
+
+// probeOnce: 1 unknown sid, 0 the sid is still served, 2 no answer (environment)
+func (r *lcRig) probeOnce() int {
+	resp, err := lcProbeClient.Get(r.ts.URL + "/socket.io/?EIO=4&transport=webtransport&sid=" + r.eioSid)
 	if err != nil {
-		return 0
+		return 2
 	}
 	defer resp.Body.Close()
 	b, _ := io.ReadAll(resp.Body)
@@ -310,7 +323,10 @@ func (r *lcRig) probe() int {
 	if resp.StatusCode == 400 && json.Unmarshal(b, &se) == nil && se.Code == 1 {
 		return 1
 	}
-	return 0
+	if resp.StatusCode == 500 { // maybeUpgrade to webtransport without a transport object: the sid is known
+		return 0
+	}
+	return 2
 }
 
 // ---------------------------------------------------------------- scripted raw client
@@ -750,7 +766,7 @@ func (r *lcRig) run() (row lcRow) {
 	}
 
 	// --- settle: the connection is gone for the server ...
-	gone := r.waitCond(9*time.Second, func() bool { return r.probe() != 0 })
+	gone := r.waitCond(9*time.Second, func() bool { return r.probeOnce() == 1 || r.eioSid == "" })
 	// ... then let a held middleware go on (admission after the end of the connection) ...
 	r.release()
 	admitted := r.waitCond(3*time.Second, func() bool {
@@ -772,6 +788,9 @@ func (r *lcRig) run() (row lcRow) {
 
 	// --- observe
 	row.Probe = r.probe()
+	if row.Probe == 2 {
+		row.EnvFail = "probe: no answer from the test server"
+	}
 	row.EioSid = r.eioSid
 	r.mu.Lock()
 	row.Fired = append([]string{}, r.fired...)
